@@ -55,6 +55,15 @@ theorem freshAckB_sound (h : HcPair F) (pb : Nat) (hb : freshAckB h pb = true) :
   obtain ⟨⟨a, b⟩, hm, rfl, hlt⟩ := hb
   exact ⟨a, hm, hlt⟩
 
+/-- Executable `FreshSync`. -/
+def freshSyncB (h : HcPair F) (id : Nat) : Bool :=
+  h.syncs.any fun x => x.2 == id && decide (h.advB + h.B.pr.windowSize < x.1 + 2^20)
+
+theorem freshSyncB_sound (h : HcPair F) (id : Nat) (hb : freshSyncB h id = true) : FreshSync h id := by
+  simp only [freshSyncB, List.any_eq_true, Bool.and_eq_true, decide_eq_true_eq, beq_iff_eq] at hb
+  obtain ⟨⟨n, b⟩, hm, rfl, hlt⟩ := hb
+  exact ⟨n, hm, hlt⟩
+
 /-- Executable `OpOk`. -/
 def opOkB (h : HcPair F) : POp → Bool
   | .deliverAB k =>
@@ -66,7 +75,7 @@ def opOkB (h : HcPair F) : POp → Bool
       | some (.sync _ (some id)) =>
         (match PRecv.resynchronize h.B.pr id with
          | .ok pr => pr == h.B.pr
-         | .error _ => false)
+         | .error _ => false) || freshSyncB h id
       | _ => true
   | .deliverBA k =>
     match h.wireBA[k]? with
@@ -89,11 +98,14 @@ theorem opOkB_sound (h : HcPair F) (op : POp) (hb : opOkB h op = true) : OpOk h 
       exact freshDgB_sound h d (hb d hmem)
     · intro nf id hd
       rw [hd] at hb
-      simp only at hb
-      split at hb
-      · rename_i pr hpr
-        rw [hpr, eq_of_beq hb]
-      · cases hb
+      simp only [Bool.or_eq_true] at hb
+      rcases hb with hb | hb
+      · left
+        split at hb
+        · rename_i pr hpr
+          rw [hpr, eq_of_beq hb]
+        · cases hb
+      · exact Or.inr (freshSyncB_sound h id hb)
   | deliverBA k =>
     intro bytes hk fb pb acks hd
     simp only [opOkB, hk, hd] at hb
